@@ -163,7 +163,13 @@ package specs
 //@ func net.(IP).String
 //@ pure
 //@ ensures result == ipString(ip)
+// canonicalIP(s): the canonical text form (net.IP.String) of the address the text s denotes
+//@ spec canonicalIP(s string) string
 //@ func net.ParseIP
+//@ assigns nothing
+//@ ensures result != nil ==> ipString(result) == canonicalIP(s)
+// building a libp2p option does not touch engine state
+//@ func github.com/libp2p/go-libp2p.ConnectionGater
 //@ assigns nothing
 
 // ---- libp2p ---------------------------------------------------------------------------------------
@@ -203,8 +209,10 @@ package specs
 //@ func golang.org/x/text/unicode/norm.(Form).String
 //@ assigns nothing
 //@ ensures result == normForm(int(f), s)
+// IsNormal(b): normalising b to the form leaves it unchanged (its definition)
 //@ func golang.org/x/text/unicode/norm.(Form).IsNormal
 //@ assigns nothing
+//@ ensures result == (normForm(int(f), string(b)) == string(b))
 
 // ---- encoding/json: decoding writes the fields of its target object and freshly allocated memory only (assumed; the
 // targets in this code base are request structs allocated by the caller).  The target is kept as a ghost call record.
